@@ -1,17 +1,41 @@
 (* Correspondence runner for the decision-logic layer (C03 C09 C10 C17 C18). *)
-From Coq Require Export List NArith ZArith String Bool.
-From Mac Require Export Model.Err Model.Caveat Model.Access Model.Prohibits Corr.Transport.
+From Coq Require Export List NArith ZArith String Ascii Bool.
+From Mac Require Export Model.Err Model.Caveat Model.Access Model.Prohibits Model.Scope Corr.Transport.
 Export ListNotations.
 
 Inductive acase :=
 | KProhibits (c : cav) (a : access) (obs : N)
 | KValidate (cs : list cav) (accs : list access) (obs : N)
-| KMaxValidity (cs : list cav) (d : Z) (found : bool).
+| KMaxValidity (cs : list cav) (d : Z) (found : bool)
+| KAccessValid (a : access) (obs : N)
+| KOrgScope (cs : list cav) (now : time) (ok : bool) (v : N)          (* v = id or error code *)
+| KAppScope (cs : list cav) (now : time) (unrestricted : bool) (ids : list N)
+| KClusterScope (cs : list cav) (now : time) (unrestricted : bool) (ids : list string)
+| KAppsAllowing (cs : list cav) (act : N) (now : time) (org : N) (unrestricted : bool) (ids : list N) (e : N)
+| KExpiration (cs : list cav) (unix nsec : Z)
+| KUserID (cs : list cav) (ok : bool) (id : N).
 
 Definition b2z (b : bool) : Z := if b then 1%Z else 0%Z.
 
+Definition zs_of_string (s : string) : list Z :=
+  Z.of_nat (String.length s) :: map (fun c => Z.of_N (N_of_ascii c)) (list_ascii_of_string s).
+Definition zs_of_optlist {A} (f : A -> list Z) (o : option (list A)) : list Z :=
+  match o with None => [1%Z] | Some l => 0%Z :: Z.of_nat (List.length l) :: flat_map f l end.
+Definition zn (n : N) : list Z := [Z.of_N n].
+
 Definition model_out (k : acase) : list Z :=
   match k with
+  | KAccessValid a _ => [Z.of_N (err_code (access_valid a))]
+  | KOrgScope cs now _ _ =>
+      match organization_scope cs now with
+      | inl id => [1%Z; Z.of_N id] | inr e => [0%Z; Z.of_N (err_code (Some e))] end
+  | KAppScope cs now _ _ => zs_of_optlist zn (app_scope cs now)
+  | KClusterScope cs now _ _ => zs_of_optlist zs_of_string (cluster_scope cs now)
+  | KAppsAllowing cs act now _ _ _ _ =>
+      let '(org, l, e) := apps_allowing cs act now in
+      Z.of_N org :: Z.of_N (err_code e) :: zs_of_optlist zn l
+  | KExpiration cs _ _ => let t := expiration cs in [t_unix t; t_nsec t]
+  | KUserID cs _ _ => match dangerous_user_id cs with Some u => [1%Z; Z.of_N u] | None => [0%Z; 0%Z] end
   | KProhibits c a _ => [Z.of_N (err_code (prohibits c a))]
   | KValidate cs accs _ => [Z.of_N (err_code (validate cs accs))]
   | KMaxValidity cs _ _ => let '(d, f) := get_max_validity cs in [d; b2z f]
@@ -19,6 +43,13 @@ Definition model_out (k : acase) : list Z :=
 
 Definition obs_out (k : acase) : list Z :=
   match k with
+  | KAccessValid _ o => [Z.of_N o]
+  | KOrgScope _ _ ok v => [b2z ok; Z.of_N v]
+  | KAppScope _ _ u ids => zs_of_optlist zn (if u then None else Some ids)
+  | KClusterScope _ _ u ids => zs_of_optlist zs_of_string (if u then None else Some ids)
+  | KAppsAllowing _ _ _ org u ids e => Z.of_N org :: Z.of_N e :: zs_of_optlist zn (if u then None else Some ids)
+  | KExpiration _ u n => [u; n]
+  | KUserID _ ok id => [b2z ok; Z.of_N id]
   | KProhibits _ _ o => [Z.of_N o]
   | KValidate _ _ o => [Z.of_N o]
   | KMaxValidity _ d f => [d; b2z f]
